@@ -47,6 +47,15 @@ theorem c14_fair_shape (ps : List Nat) (d : Nat) (m : Dist) (hnd : ps.Nodup)
   have : d - d / ps.length * ps.length = d % ps.length := by omega
   rw [this]; omega
 
+/-- **C14 (Fair respects the priority order).** Between two listed priorities the one listed
+    earlier (the higher one) never receives less, and never more than one unit more. -/
+theorem c14_fair_mono (ps : List Nat) (d : Nat) (m : Dist) (hnd : ps.Nodup)
+    (i j : Nat) (hij : i < j) (hj : j < ps.length) :
+    (fair ps d m).get (ps[j]) - m.get (ps[j]) ≤ (fair ps d m).get (ps[i]) - m.get (ps[i]) ∧
+    (fair ps d m).get (ps[i]) - m.get (ps[i]) ≤ (fair ps d m).get (ps[j]) - m.get (ps[j]) + 1 := by
+  rw [c14_fair_shape ps d m hnd j hj, c14_fair_shape ps d m hnd i (by omega)]
+  constructor <;> (split <;> split <;> omega)
+
 /-- the increments of `Rate` after the leftover has been added to the first entry -/
 def rateFinalIncs (part : Nat → Nat) (ps : List Nat) (d : Nat) : List Nat :=
   match rateIncs part ps d with
